@@ -71,5 +71,12 @@ func corpusDocs() []*Doc {
 		raw(false, `<table><col span="4294967296"><tr><td>a</td></tr></table>`),
 		mk([]*Rule{{Prelude: "p::before", Decls: []Decl{{Name: "content", Value: "counter(d, symbols(cyclic 'a' 'b'))"}}}}, p(nil, "a")),
 	)
+	// fixed-29e1ac1: footnote-policy: block aborted up to the root box
+	fnStyle := "<style>@page{size:200px 100px;margin:10px 0}body{font:20px/1 Ahem}.fn{float:footnote;footnote-policy:block}</style>"
+	out = append(out,
+		raw(false, fnStyle+`<p>abc</p><p>abc def ghi<span class="fn">note</span> jkl</p>`),
+		raw(false, fnStyle+`abc def ghi<span class="fn"></span>`),
+		raw(false, fnStyle+`<p>abc<span class="fn">f f f f f f f f f f f f f f f f f f f f f f f f f f f f</span> def</p>`),
+	)
 	return out
 }
